@@ -344,6 +344,24 @@ pub fn run(tier: Tier) -> i32 {
                     Chunk::C { class: 2, props: (0, 2, 2), prog: vec![Sym::M(5, 5), Sym::L(9)] },
                 ],
             ));
+            // more than 64 MiB in ONE dictionary: stored chunks up to 1000 bytes before the 2^26 mark, a stored chunk that
+            // straddles the mark, then LZMA chunks (no dictionary reset) with a literal and copies from both sides of the mark
+            {
+                let mut cs: Vec<Chunk> = Vec::new();
+                let pat = |base: usize, n: usize| -> Vec<u8> { (0..n).map(|i| (((base + i) as u32).wrapping_mul(2654435761) >> 22) as u8).collect() };
+                let mut produced = 0usize;
+                let before = (1usize << 26) - 1000;
+                while produced < before {
+                    let n = (before - produced).min(65536);
+                    cs.push(Chunk::U { reset: produced == 0, data: pat(produced, n) });
+                    produced += n;
+                }
+                cs.push(Chunk::U { reset: false, data: pat(produced, 3000) });
+                cs.push(Chunk::C { class: 2, props: (3, 0, 2), prog: vec![Sym::L(0x77), Sym::M(1500, 20), Sym::L(0x78), Sym::M(2600, 12), Sym::M(900, 273), Sym::S, Sym::R(1, 7)] });
+                cs.push(Chunk::U { reset: false, data: pat(7, 70000 - 65536 + 100) });
+                cs.push(Chunk::C { class: 0, props: (3, 0, 2), prog: vec![Sym::M(8000, 40), Sym::L(1), Sym::M(5000, 5)] });
+                cases.push(("more than 64 MiB in one dictionary, a stored chunk straddling the 2^26 mark, then copies from both sides of it".into(), cs));
+            }
             let ncases = cases.len() as u64;
             par_for(ncases, |i| {
                 let (label, cs) = &cases[i as usize];
